@@ -33,6 +33,9 @@ Fixpoint zipw {A B C} (f : A -> B -> C) (l : list A) (m : list B) : list C :=
   | _, _ => []
   end.
 
+Fixpoint nodupb (l : list nat) : bool :=
+  match l with [] => true | x :: r => negb (existsb (Nat.eqb x) r) && nodupb r end.
+
 (** [summaries - observed_summaries] (n x k minus 1 x k, broadcast over rows) *)
 Definition input_variables (summ : list (list fval)) (obs : list fval) : list (list fval) :=
   map (fun row => zipw fsub row obs) summ.
@@ -134,12 +137,64 @@ Definition design_col (Xf : list (list Q)) (j : nat) : list Q :=
   match j with O => map (fun _ => 1) Xf | S j' => map (fun row => nth j' row 0) Xf end.
 
 (** D^T (D beta - theta) = 0 within [tol_ne], column by column, relative to the natural scale *)
+(** [dot] with the running sum kept in lowest terms (same value; only used where the check is evaluated
+    on long columns of full-mantissa numbers) *)
+Fixpoint dotr (r b : list Q) : Q :=
+  match r, b with x :: r', y :: b' => Qred (x * y + dotr r' b') | _, _ => 0 end.
+
 Definition normal_eq_ok (Xf : list (list Q)) (thf : list Q) (b0 : Q) (b : list Q) : bool :=
   let r := residuals Xf thf b0 b in
   let s := row_scales Xf thf b0 b in
   forallb (fun j => let c := design_col Xf j in
-                    Qle_bool (Qabs (dot c r)) (tol_ne * absdot c s))
+                    Qle_bool (Qabs (dotr c r)) (tol_ne * dotr (map Qabs c) (map Qabs s)))
           (seq 0 (S (length b))).
+
+(** ** listing order of the summaries and storage of the arrays
+
+    The model above is a function of the NUMERIC values of the sample alone: it has no notion of the
+    dtype / memory layout in which [sample.outputs[...]] and [model[s].observed] are stored, and the
+    order in which the summaries are listed in [summary_names] only permutes the columns of X (and
+    with them the fitted slope, Num/AdjustMx.v), which leaves every adjusted value unchanged
+    (Proofs/C17_Adjust.v: [listing_invariant]).  A case therefore carries, besides the reference run
+    (canonical listing, float64 C-contiguous arrays), further runs [arun] of the real code on the SAME
+    numeric sample, listed in another order and stored otherwise; every one of them is compared with
+    the model's single result ([a_agree]) and must satisfy the property in its own listing ([a_ok]). *)
+
+Definition permute {A} (perm : list nat) (l : list A) (d : A) : list A := map (fun j => nth j l d) perm.
+Definition permute_cols (perm : list nat) (X : list (list fval)) : list (list fval) :=
+  map (fun row => permute perm row None) X.
+(** [perm] lists each of the [k] summaries exactly once *)
+Definition is_perm (k : nat) (perm : list nat) : bool :=
+  Nat.eqb (length perm) k && nodupb perm && forallb (fun j => Nat.ltb j k) perm.
+
+(** storage dtypes explored by the harness (float64, float32, int64, int32, bool) and the values
+    each can hold exactly: the harness stores a value only in a dtype that represents it, so a
+    difference between runs can never come from the harness's own conversion *)
+Inductive dtype := F64 | F32 | I64 | I32 | B8.
+Fixpoint is_pow2 (p : positive) : bool := match p with xH => true | xO p' => is_pow2 p' | xI _ => false end.
+Fixpoint odd_part (p : positive) : positive := match p with xO p' => odd_part p' | _ => p end.
+Definition is_int (q : Q) : bool := Pos.eqb (Qden (Qred q)) 1.
+Definition is_f32 (q : Q) : bool :=
+  let r := Qred q in
+  is_pow2 (Qden r) && match Qnum r with Z0 => true | Zpos p | Zneg p => Pos.ltb (odd_part p) 16777216 end.
+Definition storable (t : dtype) (v : fval) : bool :=
+  match t with
+  | F64 => true
+  | F32 => match v with Some q => is_f32 q | None => true end
+  | I64 | I32 => match v with Some q => is_int q | None => false end
+  | B8 => match v with Some q => Qeq_bool q 0 || Qeq_bool q 1 | None => false end
+  end.
+
+(** one further run of [adjust_posterior] on the same numeric sample *)
+Record arun := {
+  r_perm : list nat;             (* summary_names[j] = summary number r_perm[j] of the case *)
+  r_sdt : list dtype;            (* dtype of sample.outputs[summary_names[j]] *)
+  r_odt : list dtype;            (* dtype of model[summary_names[j]].observed *)
+  r_pdt : list dtype;            (* dtype of sample.outputs[parameter q] *)
+  r_coef : list (list Q);        (* coef_ per parameter, in the run's own listing order *)
+  r_icpt : list Q;
+  r_out : option (list (list Q))
+}.
 
 Record acase := {
   a_summ : list (list fval);          (* n rows of k simulated summaries *)
@@ -148,8 +203,30 @@ Record acase := {
   a_oracle : list (list Q);           (* per parameter: numpy.linalg.lstsq slope on the finite rows *)
   a_impl_coef : list (list Q);        (* per parameter: regression_models[i].coef_ *)
   a_impl_icpt : list Q;               (* per parameter: regression_models[i].intercept_ *)
-  a_impl_out : option (list (list Q)) (* adjust_posterior(...).outputs per parameter; None = raised *)
+  a_impl_out : option (list (list Q)); (* adjust_posterior(...).outputs per parameter; None = raised *)
+  a_runs : list arun                  (* the same numeric sample, listed / stored otherwise *)
 }.
+
+Definition col (j : nat) (M : list (list fval)) : list fval := map (fun row => nth j row None) M.
+
+(** the run is a re-listing / re-storage of THIS sample: a permutation of the summaries, and every
+    array holds only values its dtype represents exactly *)
+Definition run_wf (c : acase) (r : arun) : bool :=
+  let k := length (a_obs c) in
+  is_perm k (r_perm r)
+  && Nat.eqb (length (r_sdt r)) k && Nat.eqb (length (r_odt r)) k
+  && Nat.eqb (length (r_pdt r)) (length (a_params c))
+  && forallb (fun jt => forallb (storable (snd jt)) (col (fst jt) (a_summ c))) (combine (r_perm r) (r_sdt r))
+  && forallb (fun jt => storable (snd jt) (nth (fst jt) (a_obs c) None)) (combine (r_perm r) (r_odt r))
+  && forallb (fun pt => forallb (storable (snd pt)) (fst pt)) (combine (a_params c) (r_pdt r)).
+
+(** the run seen as a case of its own, in its own listing order *)
+Definition run_case (c : acase) (r : arun) : acase :=
+  {| a_summ := permute_cols (r_perm r) (a_summ c);
+     a_obs := permute (r_perm r) (a_obs c) None;
+     a_params := a_params c;
+     a_oracle := map (fun b => permute (r_perm r) b 0) (a_oracle c);
+     a_impl_coef := r_coef r; a_impl_icpt := r_icpt r; a_impl_out := r_out r; a_runs := [] |}.
 
 Fixpoint close_all (tol : Q) (X : list (list fval)) (thetas : list (list fval)) (bs : list (list Q))
          (outs : list (list Q)) : bool :=
@@ -160,13 +237,20 @@ Fixpoint close_all (tol : Q) (X : list (list fval)) (thetas : list (list fval)) 
   | _, _, _ => false
   end.
 
-Definition a_agree (c : acase) : bool :=
+(** the model's single result (canonical listing, numeric values, oracle slope) against the output of
+    one run of the implementation *)
+Definition agree_out (c : acase) (impl : option (list (list Q))) : bool :=
   let X := input_variables (a_summ c) (a_obs c) in
-  match adjust_all X (a_params c) (a_oracle c), a_impl_out c with
+  match adjust_all X (a_params c) (a_oracle c), impl with
   | Some _, Some outs => close_all tol_agree X (a_params c) (a_oracle c) outs
   | None, None => true
   | _, _ => false
   end.
+
+(** every run -- whatever the listing order and the storage -- reproduces the model's result *)
+Definition a_agree (c : acase) : bool :=
+  agree_out c (a_impl_out c)
+  && forallb (fun r => run_wf c r && agree_out c (r_out r)) (a_runs c).
 
 Fixpoint ok_all (X : list (list fval)) (thetas : list (list fval)) (bs : list (list Q)) (b0s : list Q)
          (outs : list (list Q)) : bool :=
@@ -183,13 +267,18 @@ Fixpoint ok_all (X : list (list fval)) (thetas : list (list fval)) (bs : list (l
   end.
 
 (** the property evaluated on the implementation's own output and own coefficients *)
-Definition a_ok (c : acase) : bool :=
+Definition a_ok1 (c : acase) : bool :=
   let X := input_variables (a_summ c) (a_obs c) in
   match a_impl_out c with
   | Some outs => ok_all X (a_params c) (a_impl_coef c) (a_impl_icpt c) outs
   | None =>                           (* a failed run is admissible only when some parameter has no usable row *)
       match adjust_all X (a_params c) (map (fun _ => []) (a_params c)) with None => true | Some _ => false end
   end.
+
+(** ... for the reference run and for every further run in its own listing (the numeric regressors
+    are the permuted columns of the case's, never a dtype-converted copy) *)
+Definition a_ok (c : acase) : bool :=
+  a_ok1 c && forallb (fun r => a_ok1 (run_case c r)) (a_runs c).
 
 (** * Model comparison *)
 
@@ -251,9 +340,6 @@ Fixpoint attach (samples : list (list Q * Q)) (priors : option (list Q)) : optio
 (** ** specification side *)
 
 (** the order oracle is admissible: a permutation of the indices along which the values ascend *)
-Fixpoint nodupb (l : list nat) : bool :=
-  match l with [] => true | x :: r => negb (existsb (Nat.eqb x) r) && nodupb r end.
-
 Fixpoint ascending (l : list Q) : bool :=
   match l with
   | x :: ((y :: _) as r) => Qle_bool x y && ascending r
